@@ -76,7 +76,8 @@ def expmv(f, v, t=1., tol=1e-12, ncv=10, hermitian=False, normalize=False, retur
             Further parameters that are passed to :func:`expand_krylov_space` and :func:`add`.
     """
     backend = v.config.backend
-    ncv, ncv_max = max(1, ncv), min([30, v.size])  # Krylov space parameters
+    ncv_max = min([30, v.size])  # Krylov space parameters
+    ncv = max(1, min(ncv, ncv_max))  # ncv above ncv_max would stall the controller after a rejected step
     t_now, t_out = 0, abs(t)
     sgn = t / t_out if t_out > 0 else 0
     tau = t_out  # initial quess for a time-step
